@@ -66,6 +66,8 @@ type Contracts struct {
 	Atomic    map[string]bool
 	Immutable map[string]bool
 	Consts    map[string]*CExpr
+	Monitors  map[string]*Clause // "Struct.mutexField" -> invariant over self
+	Ctors     map[string]bool    // functions allowed to assign immutable fields
 	Axioms    []*Lemma
 	File      string
 }
@@ -80,16 +82,18 @@ var (
 
 var clauseKeywords = map[string]bool{
 	"requires": true, "ensures": true, "modifies": true, "loop": true, "inline": true, "pure": true,
-	"trusted": true, "panics": true, "iterator": true, "itercount": true, "iterelem": true, "allocates": true, "nomodcheck": true, "unroll": true, "ghostret": true, "opaque": true,
+	"trusted": true, "panics": true, "iterator": true, "itercount": true, "iterelem": true, "allocates": true, "counted": true, "nomodcheck": true, "unroll": true, "ghostret": true, "opaque": true,
 }
 var topKeywords = map[string]bool{
 	"func": true, "pred": true, "spec": true, "lemma": true, "callback": true, "ghost": true,
 	"guard": true, "atomic": true, "immutable": true, "const": true, "end": true, "axiom": true,
+	"monitor": true, "constructor": true,
 }
 
 func newContracts() *Contracts {
 	return &Contracts{Funcs: map[string]*FuncContract{}, Specs: map[string]*SpecDef{}, Callbacks: map[string]*FuncContract{},
-		Guards: map[string][]string{}, Atomic: map[string]bool{}, Immutable: map[string]bool{}, Consts: map[string]*CExpr{}}
+		Guards: map[string][]string{}, Atomic: map[string]bool{}, Immutable: map[string]bool{}, Consts: map[string]*CExpr{},
+		Monitors: map[string]*Clause{}, Ctors: map[string]bool{}}
 }
 
 func loadContracts(c *Contracts, path string) error {
@@ -216,6 +220,22 @@ func loadContractsInto(c *Contracts, path string) (*Contracts, error) {
 				return nil, err
 			}
 			c.Lemmas = append(c.Lemmas, &Lemma{Name: strings.TrimSpace(rest[:k]), Expr: e, Src: strings.TrimSpace(rest[k+1:]), Line: l.line})
+			cur = nil
+		case "monitor":
+			k := strings.IndexAny(rest, " \t")
+			if k < 0 {
+				return nil, fail("monitor Struct.mutex expr")
+			}
+			e, err := parse(rest[k+1:])
+			if err != nil {
+				return nil, err
+			}
+			c.Monitors[rest[:k]] = &Clause{Kind: "monitor", Expr: e, Src: strings.TrimSpace(rest[k+1:]), Line: l.line}
+			cur = nil
+		case "constructor":
+			for _, f := range strings.Fields(rest) {
+				c.Ctors[f] = true
+			}
 			cur = nil
 		case "axiom":
 			e, err := parse(rest)
